@@ -19,7 +19,7 @@ type c03 struct{}
 func (c03) ID() string    { return "C03" }
 func (c03) Level() string { return "exploration" }
 func (c03) Rule() string {
-	return "grammar products, each complete within its domain: ports [IP:][HOST[-HOST]:]CONTAINER[-CONTAINER][/PROTO] (4 IPs x 5 host forms x 3 container forms x 4 protocols + bare integers; ranges starting at 15 (container, host) bases incl. every decimal-width boundary 9|10 .. 9999|10000); volumes [SOURCE:]TARGET[:MODE,...] (9 sources x 3 targets x mode sets of <=2 from 8); devices SRC[:DST[:PERM]]; secrets/configs by name; build string; env_file / label_file string, list, long; depends_on and networks lists; extends string; healthcheck test string; external {name}; KEY[=VALUE] lists vs mappings (6 value kinds) at 8 positions; string-or-list at 6 positions; command/entrypoint strings over quoted words (<=3 words); durations and byte sizes against numeric literals; each short form loaded next to the reference long form written from the specification grammar and compared on the whole project; near misses must be errors. distinct = distinct short-form strings"
+	return "grammar products, each complete within its domain: ports [IP:][HOST[-HOST]:]CONTAINER[-CONTAINER][/PROTO] (4 IPs x 5 host forms x 3 container forms x 4 protocols + bare integers; ranges starting at 15 (container, host) bases incl. every decimal-width boundary 9|10 .. 9999|10000); volumes [SOURCE:]TARGET[:MODE,...] (9 sources x 3 targets x mode sets of <=2 from 8); devices SRC[:DST[:PERM]]; secrets/configs by name; build string; env_file / label_file string, list, long; depends_on and networks lists; extends string; healthcheck test string; external {name}; KEY[=VALUE] lists vs mappings (6 value kinds) at 8 positions; string-or-list at 6 positions; command/entrypoint strings over <=3 words from 10 word shapes (plain, single/double quoted, escaped blank, empty, words containing no-break space, ideographic space, vertical tab, form feed); durations and byte sizes against numeric literals; each short form loaded next to the reference long form written from the specification grammar and compared on the whole project; near misses must be errors. distinct = distinct short-form strings"
 }
 func (c03) Assumptions() []string {
 	return []string{
@@ -403,7 +403,13 @@ func c03misc() []c03case {
 		eq("string-or-list/"+pos, "    "+pos+": "+v+"\n", "    "+pos+": ["+v+"]\n")
 	}
 	// command / entrypoint strings: shell words
-	words := []struct{ text, parsed string }{{"a", "a"}, {"'b c'", "b c"}, {"\"d e\"", "d e"}, {"f\\ g", "f g"}, {"--k=v", "--k=v"}, {"\"\"", ""}}
+	// a shell word is split at blanks (space, tab, newline) only: other Unicode white space is part of the word
+	words := []struct{ text, parsed string }{{"a", "a"}, {"'b c'", "b c"}, {"\"d e\"", "d e"}, {"f\\ g", "f g"}, {"--k=v", "--k=v"}, {"\"\"", ""},
+		{"h\u00a0w", "h\u00a0w"}, {"i\u3000w", "i\u3000w"}, {"v\vw", "v\vw"}, {"p\fw", "p\fw"}}
+	yqq := func(s string) string {
+		r := strings.NewReplacer("\\", "\\\\", "\"", "\\\"", "\v", "\\v", "\f", "\\f")
+		return "\"" + r.Replace(s) + "\""
+	}
 	var seqs [][]int
 	for i := range words {
 		seqs = append(seqs, []int{i})
@@ -419,10 +425,10 @@ func c03misc() []c03case {
 			var ts, ps []string
 			for _, w := range sq {
 				ts = append(ts, words[w].text)
-				ps = append(ps, yq(words[w].parsed))
+				ps = append(ps, yqq(words[w].parsed))
 			}
 			text := strings.Join(ts, " ")
-			eq(attr+"/"+text, "    "+attr+": "+yq(text)+"\n", "    "+attr+": ["+strings.Join(ps, ", ")+"]\n")
+			eq(attr+"/"+text, "    "+attr+": "+yqq(text)+"\n", "    "+attr+": ["+strings.Join(ps, ", ")+"]\n")
 		}
 		bad(attr+"/bad/unterminated", "    "+attr+": \"a 'b\"\n")
 	}
